@@ -65,6 +65,11 @@ func randomUniverse(rnd *rand.Rand, n int) []mval {
 			v.Rec = "r2"
 		case 3:
 			v.Label = keys[rnd.Intn(3)] + "|" + devs[rnd.Intn(3)] // maybe re-filed
+			if rnd.Intn(2) == 0 {
+				// re-filed under a slot whose name is structurally related to the signed one (the label is a free
+				// string): key extended, extended by separator + key, truncated
+				v.Label = []string{k + "x", k + "-" + keys[rnd.Intn(3)], k[:1]}[rnd.Intn(3)] + "|" + d
+			}
 		case 4:
 			v.SigDev = false
 		case 5:
